@@ -33,7 +33,7 @@ type scope struct {
 	instancesMu sync.RWMutex
 
 	// Per-key locks serialising the construction of scoped instances
-	creating   map[instanceKey]*sync.Mutex
+	creating   map[any]*sync.Mutex
 	creatingMu sync.Mutex
 
 	// Track disposable scoped instances
@@ -333,12 +333,12 @@ func (s *scope) Close() error {
 }
 
 // creationLock returns the lock that serialises construction of the given scoped service.
-func (s *scope) creationLock(key instanceKey) *sync.Mutex {
+func (s *scope) creationLock(key any) *sync.Mutex {
 	s.creatingMu.Lock()
 	defer s.creatingMu.Unlock()
 
 	if s.creating == nil {
-		s.creating = make(map[instanceKey]*sync.Mutex)
+		s.creating = make(map[any]*sync.Mutex)
 	}
 
 	lock, ok := s.creating[key]
@@ -461,10 +461,13 @@ func (s *scope) resolve(key instanceKey, descriptor *Descriptor) (any, error) {
 
 		// Only one goroutine constructs a given scoped service; the others wait
 		// and then find it in the cache
-		lockKey := key
+		// The registrations made by one Add call share one lock. It is identified by
+		// the call (its first descriptor), not by that descriptor's identity: the
+		// identity may since have been removed and registered again by a constructor
+		// that depends on one of the remaining outputs
+		var lockKey any = key
 		if len(descriptor.siblings) > 1 {
-			first := descriptor.siblings[0]
-			lockKey = instanceKey{Type: first.Type, Key: first.Key, Group: first.Group}
+			lockKey = descriptor.siblings[0]
 		}
 		verifYield("scope.resolve:scoped-cache-miss")
 		lock := s.creationLock(lockKey)
